@@ -8,10 +8,18 @@ package convert
 // allocated themselves; callers (unifyTuplesAsList, unifyObjectsAsMaps) patch
 // entries of it in place.
 //
+// unify: for the general case (the preference loop that tries each given type as the result) the
+// conversion slot of every input that already equals the chosen type is empty, and there is one slot per
+// input. The structural cases return what their helper functions return (not under functional contract).
 //@ func convert.unify
-//@   tags C20
+//@   tags C20 C09
 //@   frame_only
+//@   requires (forall ((j Int)) (! (=> (and (trig j) (<= 0 j) (< j (Slice.len types))) (wf_ty (ty_at types j))) :pattern ((trig j))))
 //@   fresh result.1 when (not (= (Slice.ptr result.1) 0))
+//@   ensures[C09] in_loop 2 count: (= (Slice.len result.1) (Slice.len types))
+//@   ensures[C09] in_loop 2 nil_when_equal: (forall ((j Int)) (! (=> (and (trig j) (<= 0 j) (< j (Slice.len types)) (ty_eq (ty_at types j) result.0)) (= (select (select $H<Arr<Func>> (Slice.ptr result.1)) (+ (Slice.off result.1) j)) nil.Func)) :pattern ((trig j))))
+//@   loop 3 invariant (forall ((j Int)) (! (=> (and (trig j) (<= 0 j) (< j $i) (ty_eq (ty_at types j) wantType)) (= (select (select $H<Arr<Func>> (Slice.ptr conversions)) (+ (Slice.off conversions) j)) nil.Func)) :pattern ((trig j))))
+//@   loop 3 invariant (and (= (Slice.len conversions) (Slice.len types)) (< (Slice.ptr conversions) 0))
 //
 //@ func convert.unifyCollectionTypes
 //@   tags C20
